@@ -25,7 +25,9 @@ META = {
     'problem_helper pairs each problem with the domain of that name (K8); '
     'the residual skips only acausal trial elements and uses the collinear '
     'closed form only on a polygonal curve and the same piece (E3, '
-    'R-straight).',
+    'R-straight); values stored into result[i] have rank 0 for every '
+    'shipped datum (R-scalar); both splitters tile exactly '
+    '(R-partition); cache keys depend on lists, curve and problem.',
     'checker_cmd': 'python3-vt -m stbem_static C03 --tier <tier>',
     'trusted_base': ['CPython ast', 'sympy (incl. complex erf identities)',
                      'linear fact domain',
